@@ -45,7 +45,11 @@ pub fn oracle_c13(scn: &Scenario, t: &Trace, st: &mut ExploreStats) -> Vec<Viola
                 .server
                 .transcript
                 .iter()
-                .filter(|r| matches!(r.kind, RecKind::Command | RecKind::List) && r.lines.iter().any(|l| l.starts_with(b"probe ")) && r.lines.iter().any(|l| ids.iter().any(|i| l == format!("probe {i}").as_bytes())))
+                .filter(|r| {
+                    matches!(r.kind, RecKind::Command | RecKind::List)
+                        && r.lines.iter().any(|l| l.starts_with(b"probe "))
+                        && r.lines.iter().any(|l| ids.iter().any(|i| crate::props::loopprops::norm_line(l) == crate::props::loopprops::norm_line(format!("probe {i}").as_bytes())))
+                })
                 .collect();
             let want_lines: Vec<Vec<u8>> = match n {
                 0 => vec![],
@@ -67,7 +71,7 @@ pub fn oracle_c13(scn: &Scenario, t: &Trace, st: &mut ExploreStats) -> Vec<Viola
                 }
                 continue;
             }
-            if probe_recs.len() != 1 || probe_recs[0].lines != want_lines {
+            if probe_recs.len() != 1 || !crate::props::loopprops::same_lines(&probe_recs[0].lines, &want_lines) {
                 out.push(Violation::new(
                     "C13/framing",
                     format!("typed list of {n} commands reached the server as {:?}", probe_recs.iter().map(|r| r.lines.iter().map(|l| show_bytes(l)).collect::<Vec<_>>()).collect::<Vec<_>>()),
